@@ -1083,7 +1083,7 @@ func c20WindowInFlight(p *Prog, l *Ledger) {
 				if cv, ok := arg.(*ssa.Convert); ok {
 					arg = strip(cv.X, true)
 				}
-				fr, _, ok := loadedField(arg)
+				fr, ok := p.SourceField(f, arg)
 				if !ok || !types.Identical(fr.Type, nt) {
 					bad = append(bad, fmt.Sprintf("%s: the in-flight value recorded into the window is not the listener's admission count: %s", p.At(ins), valueString(arg)))
 					return
